@@ -77,6 +77,8 @@ class ModelFile:
     def write(self, data):
         if self.closed:
             raise ValueError("I/O operation on closed file.")
+        if isinstance(data, memoryview):
+            data = data.tobytes()
         if "b" not in self.mode:
             data = data.encode(self.encoding, self.errors)
         return self.fs._write(self.path, data)
@@ -162,6 +164,7 @@ class ModelFS:
         self.fail_errno = errno.EIO
         self.enospc_after = -1     # ... or: a write stops after this many bytes with ENOSPC
         self.n_mut = 0
+        self.fault_raised = False
         self.fds = {}
         self.next_fd = 100
         self.tmp_counter = 0
@@ -337,6 +340,7 @@ class ModelFS:
     def _mut(self, op, path):
         self.n_mut += 1
         if self.n_mut == self.fail_at and self.enospc_after < 0:
+            self.fault_raised = True
             raise OSError(self.fail_errno, os.strerror(self.fail_errno), path)
         self.mutations.append((op, path))
 
@@ -437,7 +441,9 @@ class ModelFS:
                     k = len(data)
                 n.content = n.content + data[:k]
                 self.mutations.append(("write-partial", cp))
+                self.fault_raised = True
                 raise OSError(errno.ENOSPC, "No space left on device", cp)
+            self.fault_raised = True
             raise OSError(self.fail_errno, os.strerror(self.fail_errno), cp)
         self.mutations.append(("write", cp))
         n.content = n.content + data
